@@ -227,7 +227,7 @@ class _InstallWrapper(IpcCommand):
 
     # defaults options for file and dir install actions
     insoptions_default = ""
-    diroptions_default = ""
+    diroptions_default = "-m0755"
 
     # supported install command options
     install_parser = IpcArgumentParser()
@@ -241,9 +241,6 @@ class _InstallWrapper(IpcCommand):
 
     def __init__(self, *args, **kwargs):
         super().__init__(*args, **kwargs)
-        self.parser.set_defaults(
-            insoptions=self.insoptions_default, diroptions=self.diroptions_default
-        )
         self._init_coroutines()
 
     def _init_coroutines(self):
@@ -260,6 +257,10 @@ class _InstallWrapper(IpcCommand):
 
     def parse_args(self, *args, **kwargs):
         self._init_coroutines()
+        # Per-command defaults, set on the namespace since the option parser
+        # is shared between all install wrappers.
+        self.opts.insoptions = command_options(self.insoptions_default)
+        self.opts.diroptions = command_options(self.diroptions_default)
         args = super().parse_args(*args, **kwargs)
         self.parse_install_options()
         return args
@@ -336,6 +337,12 @@ class _InstallWrapper(IpcCommand):
             for d in dirs:
                 base_dir = os.path.basename(d.rstrip(os.path.sep))
                 for dirpath, dirnames, filenames in os.walk(d):
+                    dirnames[:] = [
+                        x for x in dirnames if self._allowed_dir(pjoin(dirpath, x))
+                    ]
+                    filenames = [
+                        x for x in filenames if self._allowed_file(pjoin(dirpath, x))
+                    ]
                     dest_dir = os.path.normpath(
                         pjoin(base_dir, os.path.relpath(dirpath, d))
                     )
@@ -349,6 +356,14 @@ class _InstallWrapper(IpcCommand):
                         self.install(
                             (pjoin(dirpath, f), pjoin(dest_dir, f)) for f in filenames
                         )
+
+    def _allowed_dir(self, path):
+        """Determine if a directory is descended into during recursive installs."""
+        return True
+
+    def _allowed_file(self, path):
+        """Determine if a file found during recursive installs is installed."""
+        return True
 
     @staticmethod
     def _set_attributes(opts, path):
@@ -375,7 +390,11 @@ class _InstallWrapper(IpcCommand):
             source_stat: stat result for the source file
             dest: path to the dest file
         """
-        os.utime(dest, ns=(source_stat.st_atime_ns, source_stat.st_mtime_ns))
+        os.utime(
+            dest,
+            ns=(source_stat.st_atime_ns, source_stat.st_mtime_ns),
+            follow_symlinks=False,
+        )
 
     def _is_install_allowed(self, source, source_stat, dest):
         """Determine if installing source into dest should work.
@@ -434,7 +453,10 @@ class _InstallWrapper(IpcCommand):
                 try:
                     sstat = os.stat(source)
                 except OSError as e:
-                    raise IpcCommandError(f"cannot stat {source!r}: {e.strerror}")
+                    if not os.path.islink(source):
+                        raise IpcCommandError(f"cannot stat {source!r}: {e.strerror}")
+                    # dangling symlink, installed as is
+                    sstat = os.lstat(source)
 
                 self._is_install_allowed(source, sstat, dest)
 
@@ -688,8 +710,9 @@ class Dosym(_Symlink):
 
     def run(self, args):
         target = args.target
+        image_target = pjoin(self.op.ED, target.lstrip(os.path.sep))
         if target.endswith(os.path.sep) or (
-            os.path.isdir(target) and not os.path.islink(target)
+            os.path.isdir(image_target) and not os.path.islink(image_target)
         ):
             # bug 379899
             raise IpcCommandError(f"missing filename target: {target!r}")
@@ -709,6 +732,11 @@ class Dohard(_Symlink):
 
     _link = os.link
 
+    def run(self, args):
+        # the link source is a path in the image as well
+        args.source = pjoin(self.op.ED, args.source.lstrip(os.path.sep))
+        super().run(args)
+
 
 class Doman(_InstallWrapper):
     """Python wrapper for doman."""
@@ -716,9 +744,9 @@ class Doman(_InstallWrapper):
     insoptions_default = "-m0644"
 
     arg_parser = IpcArgumentParser(parents=(_InstallWrapper.arg_parser,))
-    arg_parser.add_argument("-i18n", action="store_true", default="")
+    arg_parser.add_argument("-i18n", default=None)
 
-    detect_lang_re = re.compile(r"^(\w+)\.([a-z]{2}([A-Z]{2})?)\.(\w+)$")
+    detect_lang_re = re.compile(r"^(.+)\.([a-z]{2}(_[A-Z]{2})?)\.(\w+)$")
     valid_mandir_re = re.compile(r"man[0-9n](f|p|pm)?$")
 
     def __init__(self, *args, **kwargs):
@@ -739,13 +767,15 @@ class Doman(_InstallWrapper):
             name = basename
             mandir = f"man{ext[1:]}"
 
-            if self.language_override and self.opts.i18n:
-                mandir = pjoin(self.opts.i18n, mandir)
-            elif self.language_detect:
+            match = None
+            if self.language_detect:
                 match = self.detect_lang_re.match(basename)
-                if match:
-                    name = f"{match.group(1)}.{match.group(4)}"
-                    mandir = pjoin(match.group(2), mandir)
+
+            if self.opts.i18n is not None and (self.language_override or not match):
+                mandir = pjoin(self.opts.i18n.strip(os.path.sep), mandir)
+            elif match:
+                name = f"{match.group(1)}.{match.group(4)}"
+                mandir = pjoin(match.group(2), mandir)
 
             if self.valid_mandir_re.match(os.path.basename(mandir)):
                 if mandir not in dirs:
@@ -833,6 +863,11 @@ class Dohtml(_InstallWrapper):
             msg.append(f"  Document prefix: {self.opts.doc_prefix!r}")
         return "\n".join(msg)
 
+    def _allowed_dir(self, path):
+        """Determine if a directory is allowed to be installed from."""
+        basename = os.path.basename(path.rstrip(os.path.sep))
+        return basename not in self.opts.excluded_dirs
+
     def _allowed_file(self, path):
         """Determine if a file is allowed to be installed."""
         basename = os.path.basename(path)
@@ -845,7 +880,7 @@ class Dohtml(_InstallWrapper):
         dirs = list(dirs)
         if dirs:
             if self.opts.recursive:
-                dirs = (d for d in dirs if d not in self.opts.excluded_dirs)
+                dirs = (d for d in dirs if self._allowed_dir(d))
                 self.install_from_dirs(dirs)
             else:
                 raise IpcCommandError(f"{dirs[0]!r} is a directory, missing -r option?")
